@@ -21,6 +21,7 @@ from ..astx import call_name, calls, walk_local
 from ..cfg import CFG
 from ..loader import NOFOLD, AnalysisError, EnumMember, Repo
 from ..report import Check
+from .apci_common import selector_vars
 from .c12 import address_reviewed
 from .e1_common import check_entry, engine, finish
 
@@ -38,6 +39,8 @@ def dispatch(chk: Check, repo: Repo) -> None:
     guard_members: set[tuple[str, str]] = set()
     prefix_members: set[tuple[str, str]] = set()
     n_arms = 0
+    sel = selector_vars(repo, fi)
+    chk.ob("dispatch-selectors-are-the-apci-bits", fi.site(), sorted(sel.values()) == [0x3C0, 0x3FF], f"dispatcher selects on {{ {', '.join(f'{k} = word & {v:#06x}' for k, v in sel.items())} }}; required the 10-bit APCI code and its 4-bit service prefix", key="selectors")
     for n in cfg.nodes:
         if not isinstance(n.ast, ast.Return) or not isinstance(n.ast.value, ast.Call):
             continue
@@ -54,9 +57,9 @@ def dispatch(chk: Check, repo: Repo) -> None:
             if isinstance(e, ast.Compare) and isinstance(e.ops[0], ast.Eq):
                 v = repo.fold(e.comparators[0].value if isinstance(e.comparators[0], ast.Attribute) and e.comparators[0].attr == "value" else e.comparators[0], fi.module, fi.cls)
                 if isinstance(v, EnumMember):
-                    if ast.unparse(e.left) == "service":
+                    if sel.get(ast.unparse(e.left)) == 0x3C0:
                         svc = v
-                    elif ast.unparse(e.left) == "apci":
+                    elif sel.get(ast.unparse(e.left)) == 0x3FF:
                         ap = v
         key = ap or svc
         if svc is not None:
